@@ -60,6 +60,12 @@ def main():
             elif kind == "new":
                 OBJS[op["obj"]] = getattr(mod, op["name"])(*pos, **kw)
                 r = True
+            elif kind == "callobj":
+                OBJS[op["obj"]] = getattr(mod, op["name"])(*pos, **kw)
+                r = type(OBJS[op["obj"]]).__name__
+            elif kind == "alias":
+                OBJS[op["obj"]] = OBJS[op["of"]]
+                r = True
             elif kind == "method":
                 r = getattr(OBJS[op["obj"]], op["name"])(*pos, **kw)
             elif kind == "static":
